@@ -179,7 +179,7 @@ _AS_BUILT = {
          'Trusts bison 3.8.2 for the sync comparison only. Does not decide that RE/flex reports columns in code points, nor sentences longer than the corpus shapes.'),
  'C08': ('; TRANSLATE-ONCE call-graph rule with slots filled from the repository; MergeWith interpreted on schemas whose texts are mention sequences',
          ' As built: r6 byte vs code-point units, r7 refresh + evaluated MergeWith (every mention renamed exactly once by the complete map), r8 TRANSLATE-ONCE (single-item inserters already rename the own alias; a later complete translation requires every text stored again from the source).',
-         '"Same schema up to renaming" as data is not decided. r9 WHOLE-IDENTIFIER (no substring search for names) and r10 INHERITED-TEXTS (sibling rule of the aggregator) decide two further audit findings (repaired). Not decided: _ERROR suffix on ordinary words of conventions (partly by design).'),
+         '"Same schema up to renaming" as data is not decided. r9 WHOLE-IDENTIFIER (no substring search for names) and r10 INHERITED-TEXTS (sibling rule of the aggregator) decide two further audit findings (repaired). r11 FREE-TEXT-UNMARKED (an error-marking translator never has the last word on a convention) and r12 RAW-TEXT-MINIMAL (ManagedText::TranslateRaw interpreted: only the name bytes of a reference change) decide two more (repaired). Not decided: group InsertCopy may generate a name that a definition mentions as unresolved (excluded by the proviso of the property).'),
  'C09': ('; SELF-REFERENCE rule over records (member closures / own-member addresses vs memberwise copy and move); NewUID evaluated',
          ' As built: r6 generator evaluation, r7 views, r8 SELF-REFERENCE: an object whose member refers back to the object is never copied or moved memberwise (found RSCore::cstList bound to the source after a copy, repaired).',
          'Does not decide list order after arbitrary MoveBefore sequences beyond what the priority table implies.'),
